@@ -276,6 +276,15 @@ example : ∃ ds', drun exCd (Lockstep.BiCGStabL.prog (exBL 2 .right false 0 (1/
   rw [h3 r hr]
   exact exBL_serial
 
+/-- `dist_bicgstabl_rank_consistent` instantiated: ranks 0 and 2 (rank 1 is empty) hold the same Gram matrix, polynomial
+coefficients, `omega`, and return the same outcome -/
+example : ∃ ds', drun exCd (Lockstep.BiCGStabL.prog (exBL 2 .right false 0 (1/100)) id 0 (7/10))
+      (distribute exCd.part (Lockstep.BiCGStabL.initState (Solver.BiCGStabL.Work.fresh 3) #[1, 2, 3] #[0, 0, 0])) = some ds' ∧
+    Lockstep.BiCGStabL.outOf (ds'.scal 0) = Lockstep.BiCGStabL.outOf (ds'.scal 2) ∧ (ds'.scal 0).MZa = (ds'.scal 2).MZa := by
+  obtain ⟨ds', h1, h2⟩ := dist_bicgstabl_rank_consistent exA exP exCd exSetup (exBL 2 .right false 0 (1/100)) id 0 (7/10)
+    (Solver.BiCGStabL.Work.fresh 3) #[1, 2, 3] #[0, 0, 0] exBLsizes
+  exact ⟨ds', h1, (h2 0 2 (by decide) (by decide)).1, (h2 0 2 (by decide) (by decide)).2.1⟩
+
 /-- program = C05 model on concrete runs: `L = 1, 2, 3`, both sides, `convex`, accurate update (`delta > 0`) -/
 example : (List.all
     [exBL 1 .right false 0 (1/100), exBL 1 .left false 0 (1/100), exBL 2 .left false 0 (1/100),
@@ -322,6 +331,21 @@ example : ∃ ds', drun exCd (Lockstep.IDRs.ctorThenSolve (exId 2 false false (7
   refine ⟨ds', h1, fun r hr => ?_⟩
   rw [h3 r hr]
   exact exId_serial
+
+/-- `dist_idrs_shadow_eq_makeP` and `dist_idrs_rank_consistent` instantiated (3 ranks, the middle one empty) -/
+example : ∃ ds', drun exCd (Lockstep.IDRs.ctorProg (exId 2 false false (7/10) 3).s id)
+      (distribute exCd.part (Lockstep.IDRs.initState exRaw (Solver.IDRs.Work.fresh 3) #[1, 2, 3] #[0, 0, 0])) = some ds' ∧
+    ∀ i, ds'.vec (Lockstep.IDRs.vP i)
+      = splitVec ((Solver.IDRs.makeP (innerProductSerial exCd.conj) id (exId 2 false false (7/10) 3).s exRaw) i) exCd.part :=
+  dist_idrs_shadow_eq_makeP exA exP exCd exSetup (exId 2 false false (7/10) 3) id 0 exRaw
+    (Solver.IDRs.Work.fresh 3) #[1, 2, 3] #[0, 0, 0] exIDsizes
+
+example : ∃ ds', drun exCd (Lockstep.IDRs.ctorThenSolve (exId 2 false false (7/10) 3) id 0)
+      (distribute exCd.part (Lockstep.IDRs.initState exRaw (Solver.IDRs.Work.fresh 3) #[1, 2, 3] #[0, 0, 0])) = some ds' ∧
+    Lockstep.IDRs.outOf (ds'.scal 0) = Lockstep.IDRs.outOf (ds'.scal 2) ∧ (ds'.scal 0).M = (ds'.scal 2).M := by
+  obtain ⟨ds', h1, h2⟩ := dist_idrs_rank_consistent exA exP exCd exSetup (exId 2 false false (7/10) 3) id 0 exRaw
+    (Solver.IDRs.Work.fresh 3) #[1, 2, 3] #[0, 0, 0] exIDsizes
+  exact ⟨ds', h1, (h2 0 2 (by decide) (by decide)).1, (h2 0 2 (by decide) (by decide)).2.1⟩
 
 /-- the constructor program leaves `makeP raw` in the registers `vP i` (kernel evaluation, `s = 2`) -/
 example : (List.all [0, 1] (fun i =>
